@@ -185,8 +185,26 @@ def run(ctx):
             if 'exc' in o or len(o.get('x', [])) != len(exp) or any(abs(a - b) > 0.035 * (1 + abs(b)) for a, b in zip(o.get('x', []), exp)):
                 ctx.violation(dict(kind='conformance', what='adaptive DDE run vs method-of-steps solution', case=dict(k=k, store=store),
                                    observed=o, expected=exp))
+    # (e) adaptive solver with a delayed *edge* (emitted as a past() term): exact polynomial chain, float- and integer-typed delays
+    ecases = sc.tlc_cases(ctx, 'C10adaptive-edge', 'C10AdaptiveEdgeCases(%d)' % (6 if tier == 'quick' else 10))
+    ejobs = [dict(case=c, scale=sc_, int_delays=it) for c in ecases for sc_, it in ((1.0, False), (1.0, True), (0.5, False), (2.0, True))]
+    for j, o in zip(ejobs, run_cases(_edge_job, ejobs, timeout=300)):
+        if 'harness_error' in o:
+            raise RuntimeError(f'replay failed: {o}')
+        ctx.replayed += 1
+        ctx.case(key=['adaptive-edge', j['case']['m']['edges'], j['case']['cfg'], j['scale'], j['int_delays']], nontrivial=True)
+        exp = linmodel.expected_rows(j['case'], 'expM')
+        if not sc.same(o, exp, tol=1e-6):
+            ctx.violation(dict(kind='conformance', what='adaptive run with a delayed edge vs the exact solution (edge -> past() term)',
+                               case=dict(model=j['case']['m'], cfg=j['case']['cfg'], scale=j['scale'], int_delays=j['int_delays']),
+                               observed=o, expected=exp))
     pinned(ctx)
     pinned_d49(ctx)
+
+
+def _edge_job(j):
+    c = j['case']
+    return linmodel.run_model(c['m'], c['cfg'], scale=j['scale'], precision='float64', int_delays=j['int_delays'], rtol=1e-9, atol=1e-11)
 
 
 def method_of_steps(kr, t):
